@@ -463,6 +463,25 @@ func (c *Check) genesisCtorArgs(exp *Func) map[string]string {
 			for i, a := range call.Args {
 				if id, ok := a.(*ast.Ident); ok {
 					out[fieldOfParam[i]] = id.Name
+					// the value the local was given (a single definition from a call), for arguments hoisted into locals
+					info := exp.Pkg.TypesInfo
+					if v, _ := info.Uses[id].(*types.Var); v != nil {
+						nDef, def := 0, ""
+						ast.Inspect(exp.Body, func(m ast.Node) bool {
+							if as, ok := m.(*ast.AssignStmt); ok && len(as.Lhs) == len(as.Rhs) {
+								for j, l := range as.Lhs {
+									if lid, ok := l.(*ast.Ident); ok && (info.Defs[lid] == types.Object(v) || info.Uses[lid] == types.Object(v)) {
+										nDef++
+										def = types.ExprString(as.Rhs[j])
+									}
+								}
+							}
+							return true
+						})
+						if nDef == 1 {
+							out[fieldOfParam[i]+"#def"] = def
+						}
+					}
 				} else {
 					out[fieldOfParam[i]] = types.ExprString(a)
 				}
@@ -676,7 +695,7 @@ func (c *Check) genesisCoverage(rule string) {
 	want := map[string]string{"Definitions": "0x01", "Bindings": "0x02", "WithdrawAddresses": "0x07", "RequestContexts": "0x08"}
 	for _, f := range fields {
 		if f == "Params" {
-			c.req(strings.Contains(args[f], "GetParams"), rule, "GenesisState.Params#export", exp.Body.Pos(), "Params is exported from the parameter store: "+args[f])
+			c.req(strings.Contains(args[f], "GetParams") || strings.Contains(args[f+"#def"], "GetParams"), rule, "GenesisState.Params#export", exp.Body.Pos(), "Params is exported from the parameter store: "+args[f]+condStr(args[f+"#def"] != "", " = "+args[f+"#def"]))
 			continue
 		}
 		w, known := want[f]
@@ -702,8 +721,10 @@ func (c *Check) genesisCoverage(rule string) {
 	if f := c.P.FuncNamed("types.Params.ParamSetPairs"); f != nil {
 		for _, pa := range c.P.PathsOf(f) {
 			// the registered pairs are the elements of the returned list (however each pair is constructed)
-			if len(pa.Ret) == 1 && pa.Ret[0].Op == "lit" && len(pa.Ret[0].A)-1 > nPairs {
-				nPairs = len(pa.Ret[0].A) - 1
+			if len(pa.Ret) == 1 {
+				if els, ok := listElems(pa.Ret[0]); ok && len(els) > nPairs {
+					nPairs = len(els)
+				}
 			}
 		}
 	}
@@ -1118,7 +1139,12 @@ func (c *Check) siblingBounds(rule string) {
 			mentionsParam := false
 			last.Fact.T.Walk(func(t *Term) bool {
 				if t.Op == "" && strings.HasPrefix(t.At, "#types.") {
-					consts = append(consts, t.At)
+					// a numeric bound (a named integer constant), not a name used in a message
+					if obj, _ := c.P.ByPkg[pkgTypes].Types.Scope().Lookup(strings.TrimPrefix(t.At, "#types.")).(*types.Const); obj != nil {
+						if b, isB := obj.Type().Underlying().(*types.Basic); isB && b.Info()&types.IsNumeric != 0 {
+							consts = append(consts, t.At)
+						}
+					}
 				}
 				if t.Op == "" && strings.HasPrefix(t.At, "P") {
 					mentionsParam = true
